@@ -165,6 +165,21 @@ WireWhy(rows, n) ==
          : i \in 1..Len(n.m)}
 WireOKWhy(n) == WireChild(n)
 
+\* the written form of value v must carry exactly the member names the reference writer uses for v (same terms, nothing added or
+\* missing), at the top level and inside source / endpoints / publicKey
+MemberNames(n) == IF n.j = "obj" THEN {n.m[i].k : i \in 1..Len(n.m)} ELSE {}
+RECURSIVE NamesWhy(_, _, _)
+NamesWhy(rows, p, n) ==
+  LET ref == PresMembers(rows, p, [item |-> "min", items |-> "arr", nlv |-> "map"])
+      want == {ref[i].k : i \in 1..Len(ref)}
+      got == MemberNames(n) \ {"@context"}
+      \* an explicitly written zero (totalItems: 0, closed: false) says nothing the absent property would not
+      isZero(x) == (x.j = "num" /\ "n" \in DOMAIN x /\ x.n = 0) \/ (x.j = "bool" /\ ~x.b)
+  IN {"missing-term:" \o k : k \in want \ got} \cup {"unexpected-term:" \o k : k \in {u \in got \ want : ~isZero(Lookup(n, u))}}
+     \cup UNION {IF RowKind(rows, t) \in {"source", "endpoints", "pubkey"} /\ Lookup(n, t).j = "obj"
+                 THEN NamesWhy(SubRows(RowKind(rows, t)), p[t].p, Lookup(n, t)) ELSE {} : t \in DOMAIN p}
+WrittenNamesWhy(v, n) == IF v.k = "obj" /\ n.j = "obj" THEN NamesWhy(Props(v.g), v.p, n) ELSE {}
+
 -----------------------------------------------------------------------------
 (* The read pipeline as a machine: a document is decoded, re-encoded (in the  *)
 (* minimal style), decoded again.                                             *)
